@@ -1,3 +1,4 @@
+import os
 #!/usr/bin/env python3
 """weave.py — copies nothing itself; given a directory holding a fresh copy of /repo/etherparse/src it
 weaves the contract files (contracts/**/*.vx) into the real source text *in place*:
@@ -151,6 +152,8 @@ def parse_contracts(paths):
                 if d == 'copy_as': close_block(); f.copy_as = arg; continue
                 if d == 'attr': close_block(); f.attrs.append(arg); continue
                 if d == 'external_body': close_block(); f.external_body = True; continue
+                # @slow: proof that takes minutes: verified in the thorough tier (VERIF_V_SLOW=1), assumed (external_body, listed) in the quick tier
+                if d == 'slow': close_block(); f.external_body = not os.environ.get('VERIF_V_SLOW'); continue
                 if d in ('requires', 'ensures', 'decreases', 'recommends', 'raw', 'opens_invariants'):
                     close_block()
                     tag = arg
